@@ -1175,3 +1175,150 @@ Proof.
   destruct markers as [|mk markers]; [cbn in Hm; unfold marker_string_new in Hm; cbn in Hm; discriminate|]. cbn [is_nil]. rewrite Hm.
   cbn [sod_matches]. rewrite Hr. rewrite !utf8_decode_ascii by assumption. rewrite HE. apply (match_iff G fold _ sepb); assumption.
 Qed.
+
+(* ================================================================================================== *)
+(* Part 8: the one-pass StaticOrDynamic::replace of the repaired crate (df98c41).
+   Unconditional: it IS the longest-name simultaneous substitution; it does not depend on the order of the variables;
+   what it substitutes is never scanned again.  Under [subst_safe] it agrees with the pinned sequential algorithm:
+   the repair changes nothing outside the classes of the witnesses. *)
+
+(* how the running choice combines with the choice made on the rest of the list *)
+Definition pick_combine (acc r : option (str * str)) : option (str * str) :=
+  match acc, r with
+  | None, _ => r
+  | Some a, None => Some a
+  | Some a, Some y => if Nat.ltb (length (fst a)) (length (fst y)) then Some y else Some a
+  end.
+
+Lemma pick_fold_acc t : forall l acc, fold_left (pick_step t) l acc = pick_combine acc (fold_left (pick_step t) l None).
+Proof.
+  induction l as [|z l IH]; intros acc; [destruct acc; reflexivity|]. cbn [fold_left]. rewrite (IH (pick_step t acc z)), (IH (pick_step t None z)).
+  generalize (fold_left (pick_step t) l None). intros R.
+  unfold pick_step. destruct (prefixb (fst z) t); cbn [andb].
+  - destruct acc as [a|]; [|reflexivity]. destruct R as [y|]; cbn [pick_combine];
+      repeat (match goal with |- context [Nat.ltb ?p ?q] => destruct (Nat.ltb p q) eqn:? end; cbn [pick_combine]);
+      try reflexivity;
+      repeat match goal with H : Nat.ltb _ _ = true |- _ => apply Nat.ltb_lt in H | H : Nat.ltb _ _ = false |- _ => apply Nat.ltb_ge in H end;
+      exfalso; lia.
+  - destruct acc as [a|]; [|reflexivity]. destruct R; reflexivity.
+Qed.
+
+(* find in the stable length-descending insertion *)
+Lemma find_insert_desc {A} (len : A -> nat) (P : A -> bool) x : forall l, desc_sorted len l ->
+  find P (insert_desc len x l) =
+  if P x then match find P l with
+              | Some y => if Nat.ltb (len x) (len y) then Some y else Some x
+              | None => Some x
+              end
+  else find P l.
+Proof.
+  unfold desc_sorted. induction l as [|z l IH]; intros Hs.
+  - cbn. destruct (P x); reflexivity.
+  - inversion Hs as [|? ? Hs' Hall]; subst. cbn [insert_desc]. destruct (Nat.ltb (len x) (len z)) eqn:E.
+    + cbn [find]. destruct (P z) eqn:Pz.
+      * destruct (P x); [rewrite E|]; reflexivity.
+      * apply IH. exact Hs'.
+    + apply Nat.ltb_ge in E. cbn [find]. destruct (P x) eqn:Px; [|reflexivity].
+      destruct (P z) eqn:Pz.
+      * assert (Nat.ltb (len x) (len z) = false) as -> by (apply Nat.ltb_ge; exact E). reflexivity.
+      * destruct (find P l) as [y|] eqn:Ef; [|reflexivity]. apply find_some in Ef. destruct Ef as [Hy _].
+        rewrite Forall_forall in Hall. specialize (Hall y Hy).
+        assert (Nat.ltb (len x) (len y) = false) as -> by (apply Nat.ltb_ge; lia). reflexivity.
+Qed.
+
+(* the loop of the repaired code picks what [find] picks in the list sorted as the crate sorts it: the longest name
+   that follows, the first one of the list among equal names *)
+Theorem pick_longest_sorted vars t : pick_longest vars t = find_ref (sort_desc name_len vars) t.
+Proof.
+  unfold pick_longest, find_ref. induction vars as [|x vars IH]; [reflexivity|].
+  cbn [fold_left sort_desc]. rewrite pick_fold_acc, IH.
+  rewrite (find_insert_desc name_len (fun nv => prefixb (fst nv) t) x _ (sort_desc_sorted name_len vars)).
+  unfold pick_step. cbn [andb]. destruct (prefixb (fst x) t); cbn [andb pick_combine]; [|reflexivity].
+  unfold name_len. destruct (find _ (sort_desc _ vars)); reflexivity.
+Qed.
+
+Lemma onepass_simul vars vars' : (forall t, pick_longest vars t = find_ref vars' t) -> forall s k, onepass vars s k = simul vars' s k.
+Proof.
+  intros H. induction s as [|c s IH]; intros k; [reflexivity|]. cbn [onepass simul]. destruct k; [|apply IH].
+  destruct (N.eqb c c_at); [|f_equal; apply IH]. rewrite H. destruct (find_ref vars' s); f_equal; apply IH.
+Qed.
+
+(* UNCONDITIONAL: the repaired replace is the simultaneous longest-name substitution *)
+Theorem onepass_is_simul_longest vars s : sod_replace_onepass s vars = simul_longest vars s.
+Proof. unfold sod_replace_onepass, simul_longest, simul_subst. apply onepass_simul. intros t. apply pick_longest_sorted. Qed.
+
+(* ... so the list may come in any order (different names), in particular sorted or not *)
+Theorem onepass_order_irrelevant vars vars' s : Permutation vars vars' -> NoDup (map fst vars) ->
+  sod_replace_onepass s vars = sod_replace_onepass s vars'.
+Proof. intros P Hnd. rewrite !onepass_is_simul_longest. apply order_irrelevant; assumption. Qed.
+
+Theorem onepass_sorted vars s : NoDup (map fst vars) -> sod_replace_onepass s (sort_desc name_len vars) = sod_replace_onepass s vars.
+Proof. intros Hnd. symmetry. apply onepass_order_irrelevant; [apply sort_desc_perm|exact Hnd]. Qed.
+
+(* ... and agrees with the pinned sequential algorithm (in the order the crate uses) under the side condition *)
+Theorem onepass_agrees_sequential vars s : subst_safe vars s = true ->
+  sod_replace s (sort_desc name_len vars) = sod_replace_onepass s vars.
+Proof. intros H. rewrite onepass_is_simul_longest. apply substitute_longest. exact H. Qed.
+
+(* no re-substitution: the input is a sequence of literal characters and references "@name" of variables; the
+   output is the same sequence with each reference replaced by the value of THAT variable, which is the longest
+   name following its '@' *)
+Inductive out_piece := OLit (c : N) | OVal (nv : str * str).
+Definition out_src (p : out_piece) : str := match p with OLit c => [c] | OVal nv => at_name (fst nv) end.
+Definition out_dst (p : out_piece) : str := match p with OLit c => [c] | OVal nv => snd nv end.
+
+Fixpoint onepass_pieces (variables : list (str * str)) (s : str) (skip : nat) : list out_piece :=
+  match s with
+  | [] => []
+  | c :: s' =>
+      match skip with
+      | S k => onepass_pieces variables s' k
+      | O =>
+          if N.eqb c c_at then
+            match pick_longest variables s' with
+            | Some nv => OVal nv :: onepass_pieces variables s' (length (fst nv))
+            | None => OLit c :: onepass_pieces variables s' 0
+            end
+          else OLit c :: onepass_pieces variables s' 0
+      end
+  end.
+
+Lemma pick_longest_spec vars t nv : pick_longest vars t = Some nv ->
+  In nv vars /\ prefixb (fst nv) t = true
+  /\ forall nv', In nv' vars -> prefixb (fst nv') t = true -> (length (fst nv') <= length (fst nv))%nat.
+Proof. rewrite pick_longest_sorted. apply longest_pick. Qed.
+
+Lemma onepass_pieces_gen vars : forall s k, (k <= length s)%nat ->
+  flat_map out_src (onepass_pieces vars s k) = skipn k s
+  /\ flat_map out_dst (onepass_pieces vars s k) = onepass vars s k.
+Proof.
+  induction s as [|c s IH]; intros k Hk.
+  - cbn in Hk. assert (k = 0%nat) as -> by lia. split; reflexivity.
+  - cbn [onepass_pieces onepass]. destruct k as [|k].
+    + cbn [skipn]. destruct (N.eqb c c_at) eqn:Ec.
+      * apply N.eqb_eq in Ec. subst c. destruct (pick_longest vars s) as [nv|] eqn:Ep.
+        -- destruct (pick_longest_spec _ _ _ Ep) as (_ & Hp & _). pose proof (prefixb_length _ _ Hp) as Hl.
+           destruct (IH (length (fst nv)) Hl) as [E1 E2]. cbn [flat_map out_src out_dst]. rewrite E1, E2. split; [|reflexivity].
+           unfold at_name. cbn [app]. f_equal. symmetry. apply prefixb_skipn. exact Hp.
+        -- destruct (IH 0%nat (Nat.le_0_l _)) as [E1 E2]. cbn [flat_map out_src out_dst app]. rewrite E1, E2. split; reflexivity.
+      * destruct (IH 0%nat (Nat.le_0_l _)) as [E1 E2]. cbn [flat_map out_src out_dst app]. rewrite E1, E2. split; reflexivity.
+    + cbn [skipn]. apply IH. cbn in Hk. lia.
+Qed.
+
+Lemma onepass_pieces_vals vars : forall s k nv, In (OVal nv) (onepass_pieces vars s k) -> In nv vars.
+Proof.
+  induction s as [|c s IH]; intros k nv H; [destruct H|]. cbn [onepass_pieces] in H. destruct k as [|k]; [|apply (IH _ _ H)].
+  destruct (N.eqb c c_at).
+  - destruct (pick_longest vars s) as [nv0|] eqn:Ep.
+    + destruct H as [H|H]; [injection H as <-; apply (pick_longest_spec _ _ _ Ep)|apply (IH _ _ H)].
+    + destruct H as [H|H]; [discriminate|apply (IH _ _ H)].
+  - destruct H as [H|H]; [discriminate|apply (IH _ _ H)].
+Qed.
+
+Theorem onepass_no_rescan vars s : exists pieces : list out_piece,
+  s = flat_map out_src pieces /\ sod_replace_onepass s vars = flat_map out_dst pieces
+  /\ forall nv, In (OVal nv) pieces -> In nv vars.
+Proof.
+  exists (onepass_pieces vars s 0). destruct (onepass_pieces_gen vars s 0 (Nat.le_0_l _)) as [E1 E2]. split; [symmetry; exact E1|].
+  split; [symmetry; exact E2|]. intros nv. apply onepass_pieces_vals.
+Qed.
